@@ -164,6 +164,7 @@ type Path struct {
 	makeCap   int
 	pcSet     map[int]bool
 	pcVars    map[int]bool
+	threadsSt *threadState
 }
 
 func (p *Path) unsupported(msg string) pathAbort {
